@@ -445,6 +445,7 @@ def run(S):
         S.validation['native_corpus'] = 'clean (%d sources x units 1..8)' % len(CORPUS) if not w else w['what']
         if w:
             S.inconclusive.append('C12: the native corpus shows a deviation the solver-decided data flow does not explain: %s' % w['what'])
+    known_defect_docs(S)
     S.assumptions += [
         'pretty renders nest(n) as n additional blanks after each line break inside it (documented semantics); align/hang only in comment.rs',
         'MIR temporaries in the slices are single-assignment; slices through calls or multiple assignments are reported, not guessed',
@@ -496,10 +497,37 @@ CORPUS = [
     '#let v = a // c\n  + b\n', '#{\n  let v = aaa and // c\n    bbb\n}\n', '#let v = a + f(\n  1,\n) + (\n  2,\n)\n', '#f(a // c\n  + b)\n',
     '#let w = a.b // c\n  .c()\n', '$ f(a, // c\n  b) $\n', '#let g = (x /* c */, // d\n  y) => x\n', '#{\n  x = a // c\n    * b\n}\n',
     '$ [ a +\nb +\nc ] $\n', '$ f(x) = ( a\n+ b ) $\n', '$ { a\n  b } $\n', '$ (\n  a\n) $\n', '$ vec(\n  a,\n  b,\n) $\n', '$\n  a \\\n  b\n$\n',
+    '$ mat(a, // c\n b; c) $\n', '$ mat(\n  a, b; // c\n  c, d\n) $\n', '$ f(a; // c\n b) $\n', '#f(a, // c\n b)\n', '#(a, // c\n b,\n\n c)\n',
     '#a.bb.c(\n1,\n2)\n', '#{\n  aaaaaaaa.bbbbbbbb.cccc(\n    x,\n    y,\n  )\n}\n', '#let v = aaaa.bbbb.cccc(1, 2).dddd\n', '#f(aaaa.bbbb.cccc(\n  x,\n))\n',
     '#{\n  let v = aaaaaa.bbbbbb.cccccc(\n    // c\n    x,\n  )\n}\n', '#aaaaaaaaaaaa.bbbbbbbbbbbb.cccccccc(\n  1,\n  2,\n)\n',
     '#let long = aaaaaaaaaaaaaaaaaaaaaaaaaaaaaa + bbbbbbbbbbbbbbbbbbbbbbbbbbbbbbbbbbbb + cccccccccccccccccccccccccccccccccccccc + dddddddddddddddddddddddddddddd\n',
 ]
+
+
+KNOWN_DOCS = {
+    '$ mat(a,\n // c\n b) $\n': 'line-comment-on-its-own-line-in-math-arguments',
+    '-\n  // c\n  a\n': 'line-comment-on-its-own-line-in-a-list-item',
+}
+
+
+def known_defect_docs(S):
+    """documents of open known findings: the stray blank in front of a line comment that follows a line break pushed by a flow producer"""
+    for src, kid in KNOWN_DOCS.items():
+        outs = {}
+        for t in (1, 2, 4):
+            r = S.driver.call('format', hexs(src), 1000000, t, 0)
+            if r[0] == 'ok':
+                outs[t] = unhexs(r[1])
+        bad = None
+        for t, o in outs.items():
+            for l in o.split('\n'):
+                ind = len(l) - len(l.lstrip(' '))
+                if l.strip() and ind % t:
+                    bad = (t, l, ind)
+        if bad:
+            S.violation('C12:native:indentation-not-a-multiple-of-the-unit:document:' + kid,
+                        'with tab_spaces = %d the line %s of the formatted %s is indented by %d blanks' % (bad[0], show(bad[1]), show(src), bad[2]),
+                        dict(api=dict(api='Typstyle::format_content', source=src, tab=bad[0])))
 
 
 def native_confirm(S):
